@@ -1,12 +1,15 @@
 /-
   Qfx.Model.Session — the session state machine of quickfix, function by function:
-  session.go, session_state.go, in_session.go, resend_state.go, logon_state.go, logout_state.go,
+  session.go, session_state.go (incl. CheckResetTime / ResetSeqTime), in_session.go, resend_state.go, logon_state.go, logout_state.go,
   pending_timeout.go, latent_state.go, not_session_time.go, memory_store.go (as the abstract store).
 
+  EnableLastMsgSeqNumProcessed (header tag 369) is `OutMsg.last`, filled by `stamp` at the start of `prep`
+  (fillDefaultHeader): the MsgSeqNum of the message replied to (`OutMsg.inReplyTo`), else NextTargetMsgSeqNum-1.
   Inbound messages are ordered (tag, value) lists (the harness builds the bytes from the same list);
   outbound messages are `OutMsg` (MsgType, MsgSeqNum, other observed fields).  Application callbacks are
   scripted by fields of the messages themselves (9001 inbound verdict, 9002 ToApp verdict, 9003 ToApp on
-  resend).  The clock enters as relations only: `@n` time tokens are `now + n` seconds.
+  resend).  The clock enters as relations only: `@n` time tokens are `now + n` seconds; the one absolute clock is the
+  argument of `Ev.resetTime` (CheckResetTime), in seconds since a UTC midnight, chosen by the harness.
   Deliberately NOT tidied: the places where Go inspects `session.State` by type switch
   (`verifySelect`, `processReject`), `onDisconnect` draining the inbound channel through the old state, etc.
 -/
@@ -33,6 +36,10 @@ structure Cfg where
   applVer : String := ""
   /-- after the `fix:` the type switches on session.State look through pendingTimeout -/
   lookThroughPending : Bool := true
+  /-- ResetSeqTime: seconds of the (UTC) day at which the numbers are reset by a mid-connection Logon; `none` = not enabled -/
+  resetSeqTime : Option Nat := none
+  /-- EnableLastMsgSeqNumProcessed: every outbound header carries tag 369 -/
+  lastSeqProcessed : Bool := false
   deriving Repr, Inhabited
 
 def bsName : Nat → String
@@ -54,6 +61,11 @@ structure OutMsg where
   kind : String          -- 35
   seq : Int              -- 34
   f : Fields             -- further fields
+  /-- header tag 369 (LastMsgSeqNumProcessed), set by `fillDefaultHeader` when the option is on -/
+  last : Option Int := none
+  /-- the message is built in reply to an inbound message (`inReplyTo ≠ nil`); `last` then holds that message's
+      MsgSeqNum when it is readable -/
+  re : Bool := false
   deriving Repr, Inhabited, BEq, DecidableEq
 
 def isAdminKind (k : String) : Bool :=
@@ -91,6 +103,11 @@ def getTime (m : InMsg) (t : Nat) : Got Int :=
     | _ => .garbled
 
 def kindOf (m : InMsg) : String := (m.f.get? 35).getD ""
+
+/-- `…InReplyTo(msg, inReplyTo)` with `inReplyTo ≠ nil`: remember the MsgSeqNum of the message replied to (GetInt; an
+    unreadable number leaves the tag out) -/
+def OutMsg.inReplyTo (o : OutMsg) (m : InMsg) : OutMsg :=
+  { o with re := true, last := match getInt m 34 with | .val n => some n | _ => none }
 
 /-! ## rejects -/
 
@@ -164,6 +181,10 @@ structure Sess where
   stopped : Bool := false
   hb : Int := 0
   log : List Obs := []             -- observations of the current event, newest first
+  /-- lastCheckedResetSeqTime (seconds on the harness clock); `none` = the zero time.Time -/
+  lastCheckedReset : Option Int := none
+  /-- tag 369 of the gap fills answering the ResendRequest being processed (generateSequenceReset's `inReplyTo`) -/
+  replyLast : Option Int := none
   deriving Inhabited
 
 def Sess.emit (s : Sess) (o : Obs) : Sess := { s with log := o :: s.log }
@@ -180,6 +201,8 @@ def Sess.setStopped (s : Sess) : Sess := { s with stopped := true }
 def Sess.setHb (s : Sess) (h : Int) : Sess := { s with hb := h }
 def Sess.setTarget (s : Sess) (n : Int) : Sess := { s with store := { s.store with target := n } }
 def Sess.clearLog (s : Sess) : Sess := { s with log := [] }
+def Sess.setLastChecked (s : Sess) (now : Int) : Sess := { s with lastCheckedReset := some now }
+def Sess.setReplyLast (s : Sess) (v : Option Int) : Sess := { s with replyLast := v }
 def Sess.openConn (s : Sess) : Sess := { s with out := true, inboxOpen := true, inbox := [], sentReset := false }
 
 /-- store mutations are observed (the harness wraps the real store) -/
@@ -200,8 +223,42 @@ def Sess.persistOut (s : Sess) (seq : Int) (m : OutMsg) : Sess :=
 def sendQueued (s : Sess) : Sess :=
   if s.out then { s with log := (s.toSend.map Obs.wire).reverse ++ s.log, toSend := [] } else s
 
-/-- prepMessageForSend: number, callbacks, Logon-reset, persist.  `none` = the application refused (ToApp error) -/
-def prep (s : Sess) (m : OutMsg) : Option OutMsg × Sess :=
+/-- not logged on: `queueForSend(msg)` — the `inReplyTo` argument is dropped there (prepMessageForSend(msg, nil)) -/
+def OutMsg.asNew (m : OutMsg) : OutMsg := { m with re := false }
+
+/-- fillDefaultHeader's tag 369: off ⇒ absent; in reply to a message ⇒ that message's MsgSeqNum (already in `last`);
+    otherwise the last inbound number consumed, `NextTargetMsgSeqNum() - 1`, read before anything else happens.
+    The reply marker is consumed here: messages that have been through `prep` all have `re = false`. -/
+def stamp (s : Sess) (m : OutMsg) : OutMsg :=
+  { m with re := false,
+           last := if s.cfg.lastSeqProcessed then (if m.re then m.last else some (s.store.target - 1)) else none }
+
+@[simp] theorem asNew_kind (m : OutMsg) : m.asNew.kind = m.kind := rfl
+@[simp] theorem asNew_f (m : OutMsg) : m.asNew.f = m.f := rfl
+@[simp] theorem asNew_seq (m : OutMsg) : m.asNew.seq = m.seq := rfl
+@[simp] theorem inReplyTo_kind (o : OutMsg) (m : InMsg) : (o.inReplyTo m).kind = o.kind := rfl
+@[simp] theorem inReplyTo_f (o : OutMsg) (m : InMsg) : (o.inReplyTo m).f = o.f := rfl
+@[simp] theorem inReplyTo_seq (o : OutMsg) (m : InMsg) : (o.inReplyTo m).seq = o.seq := rfl
+@[simp] theorem stamp_kind (s : Sess) (m : OutMsg) : (stamp s m).kind = m.kind := rfl
+@[simp] theorem stamp_f (s : Sess) (m : OutMsg) : (stamp s m).f = m.f := rfl
+@[simp] theorem stamp_seq (s : Sess) (m : OutMsg) : (stamp s m).seq = m.seq := rfl
+/-- tag 369 of a message sent in reply to `m`: `m`'s MsgSeqNum if readable (option on) -/
+theorem stamp_last_reply (s : Sess) (o : OutMsg) (m : InMsg) :
+    (stamp s (o.inReplyTo m)).last =
+      if s.cfg.lastSeqProcessed then (match getInt m 34 with | .val n => some n | _ => none) else none := rfl
+/-- tag 369 of a message not sent in reply to anything: the last inbound number consumed (option on) -/
+theorem stamp_last_new (s : Sess) (o : OutMsg) (h : o.re = false) :
+    (stamp s o).last = if s.cfg.lastSeqProcessed then some (s.store.target - 1) else none := by
+  unfold stamp; simp [h]
+theorem stamp_congr (s s' : Sess) (m : OutMsg) (h1 : s'.cfg = s.cfg) (h2 : s'.store.target = s.store.target) :
+    stamp s' m = stamp s m := by unfold stamp; rw [h1, h2]
+/-- option off: the header is the one the message was built with (no tag 369) -/
+theorem stamp_off (s : Sess) (m : OutMsg) (h : s.cfg.lastSeqProcessed = false) (hl : m.last = none) (hr : m.re = false) :
+    stamp s m = m := by
+  unfold stamp; simp only [h, Bool.false_eq_true, if_false]; cases m; simp_all
+
+/-- prepMessageForSend after fillDefaultHeader: number, callbacks, Logon-reset, persist.  `none` = the application refused (ToApp error) -/
+def prepCore (s : Sess) (m : OutMsg) : Option OutMsg × Sess :=
   let seq := s.store.sender
   if isAdminKind m.kind then
     let (s, seq) :=
@@ -217,13 +274,16 @@ def prep (s : Sess) (m : OutMsg) : Option OutMsg × Sess :=
       let m := { m with seq := seq }
       (some m, s.persistOut seq m)
 
+/-- prepMessageForSend -/
+def prep (s : Sess) (m : OutMsg) : Option OutMsg × Sess := prepCore s (stamp s m)
+
 def queueForSend (s : Sess) (m : OutMsg) : Sess :=
   match prep s m with
   | (none, s) => s
   | (some m, s) => s.setToSend (s.toSend ++ [m])
 
 def sendInReplyTo (s : Sess) (m : OutMsg) : Sess :=
-  if !s.st.loggedOn then queueForSend s m
+  if !s.st.loggedOn then queueForSend s m.asNew
   else match prep s m with
     | (none, s) => s
     | (some m, s) => sendQueued (s.setToSend (s.toSend ++ [m]))
@@ -247,6 +307,9 @@ def logonMsg (s : Sess) (reset : Bool) : OutMsg :=
              ++ (if s.cfg.applVer.isEmpty then [] else [(1137, s.cfg.applVer)]))
 
 def sendLogonInReplyTo (s : Sess) (reset : Bool) : Sess := dropAndSend s (logonMsg s reset)
+
+/-- sendLogonInReplyTo(reset, msg) with `msg ≠ nil`: the acceptor's answer to a Logon -/
+def sendLogonRe (s : Sess) (reset : Bool) (m : InMsg) : Sess := dropAndSend s ((logonMsg s reset).inReplyTo m)
 
 def shouldSendReset (s : Sess) : Bool :=
   if s.cfg.bs < 1 then false
@@ -296,7 +359,7 @@ def rejectMsg (cfg : Cfg) (m : InMsg) (reason : Nat) (refTag : Option Nat) (busi
     mkOut "3" (routing ++ refSeq)
 
 def doReject (s : Sess) (m : InMsg) (reason : Nat) (refTag : Option Nat) (business : Bool) : Sess :=
-  sendInReplyTo s (rejectMsg s.cfg m reason refTag business)
+  sendInReplyTo s ((rejectMsg s.cfg m reason refTag business).inReplyTo m)
 
 /-! ## verification (session.go verifySelect and the checks) -/
 
@@ -423,6 +486,10 @@ def processReject (s : Sess) (m : InMsg) (r : Rej) : Sess × SState :=
 
 def gapFill (b e : Int) : OutMsg := { kind := "4", seq := b, f := [(36, toString e), (43, "Y"), (122, "+"), (123, "Y")] }
 
+/-- generateSequenceReset(b, e, inReplyTo): the gap fill with the header of a reply to the ResendRequest being answered
+    (tag 369 = its MsgSeqNum, kept in `replyLast` while the request is processed) -/
+def gapFillR (s : Sess) (b e : Int) : OutMsg := { gapFill b e with last := s.replyLast }
+
 /-- resendMessages over the stored range; `resent m` = original fields + PossDup + OrigSendingTime -/
 def resent (m : OutMsg) : OutMsg := { m with f := (m.f.set 43 "Y").set 122 "+" }
 
@@ -432,7 +499,7 @@ def resendLoop (s : Sess) (seqNum nextSeqNum : Int) : List (Int × OutMsg) → S
     if isAdminKind m.kind then resendLoop s seqNum (n + 1) rest
     else if m.f.get? 9003 == some "n" then resendLoop s seqNum (n + 1) rest
     else
-      let s := if seqNum != n then enqueueAndSend s (gapFill seqNum n) else s
+      let s := if seqNum != n then enqueueAndSend s (gapFillR s seqNum n) else s
       let s := enqueueAndSend s (resent m)
       resendLoop s (n + 1) (n + 1) rest
 
@@ -445,16 +512,16 @@ def Store.range (st : Store) (b e : Int) : List (Int × OutMsg) :=
 
 def resendMessages (s : Sess) (b e : Int) : Sess :=
   if e < b then s            -- after `fix:` 0fb72e5: nothing for an empty or inverted range
-  else if !s.cfg.persist then enqueueAndSend s (gapFill b (e + 1))
+  else if !s.cfg.persist then enqueueAndSend s (gapFillR s b (e + 1))
   else
     let (s, seqNum, next) := resendLoop s b b (s.store.range b e)
-    if seqNum != next then enqueueAndSend s (gapFill seqNum next) else s
+    if seqNum != next then enqueueAndSend s (gapFillR s seqNum next) else s
 
 def handleLogout (s : Sess) (m : InMsg) : Sess × SState :=
   match verifySelect s m false false true with
   | (s, some r) => processReject s m r
   | (s, none) =>
-    let s := if s.st.loggedOn then sendInReplyTo s (mkOut "5" []) else s
+    let s := if s.st.loggedOn then sendInReplyTo s ((mkOut "5" []).inReplyTo m) else s
     if s.cfg.resetOnLogout then (dropAndReset s, .latent)
     else if (checkTooLow s m).isSome then (s, .latent)
     else if (checkTooHigh s m).isSome then (s, .latent)
@@ -465,7 +532,7 @@ def handleTestRequest (s : Sess) (m : InMsg) : Sess × SState :=
   | (s, some r) => processReject s m r
   | (s, none) =>
     let s := match m.f.get? 112 with
-      | some id => sendInReplyTo s (mkOut "0" [(112, id)])
+      | some id => sendInReplyTo s ((mkOut "0" [(112, id)]).inReplyTo m)
       | none => s
     (incrTarget s, .inSession)
 
@@ -484,6 +551,10 @@ def handleSequenceReset (s : Sess) (m : InMsg) : Sess × SState :=
         else (s, .inSession)
       | _ => (s, .inSession)
 
+/-- tag 369 of a message built by `fillDefaultHeader(_, inReplyTo = m)` -/
+def replyLastOf (s : Sess) (m : InMsg) : Option Int :=
+  if s.cfg.lastSeqProcessed then (match getInt m 34 with | .val n => some n | _ => none) else none
+
 def handleResendRequest (s : Sess) (m : InMsg) : Sess × SState :=
   match verifySelect s m false false true with
   | (s, some r) => processReject s m r
@@ -494,7 +565,7 @@ def handleResendRequest (s : Sess) (m : InMsg) : Sess × SState :=
        | .val e =>
          let expected := s.store.sender
          let e := if (s.cfg.bs ≥ 2 && e == 0) || (s.cfg.bs ≤ 2 && e == 999999) || e ≥ expected then expected - 1 else e
-         let s := resendMessages s b e
+         let s := resendMessages (s.setReplyLast (replyLastOf s m)) b e
          if (checkTooLow s m).isSome then (s, .inSession)
          else if (checkTooHigh s m).isSome then (s, .inSession)
          else (incrTarget s, .inSession)
@@ -509,7 +580,7 @@ inductive LogonErr | rej (r : Rej) | other
 def logonReply (s : Sess) (m : InMsg) (flag : Bool) : Sess :=
   if !s.cfg.initiator then
     let s := if !s.cfg.hbOverride then (match getInt m 108 with | .val h => s.setHb h | _ => s) else s
-    sendLogonInReplyTo s flag
+    sendLogonRe s flag m
   else s
 
 /-- the end of handleLogon: arm the peer timer, notify, gap check, consume the Logon's number -/
@@ -537,7 +608,7 @@ def inSessionFixMsgIn (s : Sess) (m : InMsg) : Sess × SState :=
   let k := kindOf m
   if k == "A" then
     match handleLogon s m with
-    | (s, some _) => (initiateLogout s, .logout)
+    | (s, some _) => (sendInReplyTo s ((mkOut "5" []).inReplyTo m), .logout)      -- initiateLogoutInReplyTo("", msg)
     | (s, none) => (s, .inSession)
   else if k == "5" then handleLogout s m
   else if k == "2" then handleResendRequest s m
@@ -585,16 +656,16 @@ def resendFixMsgIn (s : Sess) (stash : List (Int × InMsg)) (cur fin : Int) (m :
         | (s, .resend st' c f, rest) => (s, .resend (if shared then rest else st') c f)   -- unreachable in practice
         | (s, nx, _) => (s, nx)
 
-def shutdownWithReason (s : Sess) (incr : Bool) : Sess × SState :=
-  let s := dropAndSend s (mkOut "5" [])
+def shutdownWithReason (s : Sess) (m : InMsg) (incr : Bool) : Sess × SState :=
+  let s := dropAndSend s ((mkOut "5" []).inReplyTo m)
   ((if incr then incrTarget s else s), .latent)
 
 def logonFixMsgIn (s : Sess) (m : InMsg) : Sess × SState :=
   if kindOf m != "A" then (s, .latent) else
   match handleLogon s m with
   | (s, none) => (s, .inSession)
-  | (s, some (.rej .rejectLogon)) => shutdownWithReason s true
-  | (s, some (.rej (.tooLow _ _))) => shutdownWithReason s false
+  | (s, some (.rej .rejectLogon)) => shutdownWithReason s m true
+  | (s, some (.rej (.tooLow _ _))) => shutdownWithReason s m false
   | (s, some (.rej (.tooHigh recv exp))) =>
     let (s, c, f) := sendResendRequest s exp (recv - 1)
     (s, .resend [] c f)
@@ -672,6 +743,29 @@ def checkSessionTime (fuel : Nat) (s : Sess) (inRange same : Bool) : Sess :=
       else s
 end
 
+/-- the reset instant of the day `now` lies in: time.Date(now's Y-M-D, ResetSeqTime's h:m:s) in UTC, as seconds on the
+    same clock as `now` (whose origin is a midnight) -/
+def resetInstant (rs : Nat) (now : Int) : Int := now / 86400 * 86400 + rs
+
+/-- lastChecked.Before(resetSeqTimeToday) && !now.Before(resetSeqTimeToday) -/
+def crossedReset (rs : Nat) (last now : Int) : Bool :=
+  decide (last < resetInstant rs now) && decide (resetInstant rs now ≤ now)
+
+/-- stateMachine.CheckResetTime: not enabled ⇒ nothing; the first call and every call without a connection only
+    record the clock; otherwise a Logon with ResetSeqNumFlag is sent when today's reset instant lies in
+    (last check, now] -/
+def checkResetTime (s : Sess) (now : Int) : Sess :=
+  match s.cfg.resetSeqTime with
+  | none => s
+  | some rs =>
+    match s.lastCheckedReset with
+    | none => s.setLastChecked now
+    | some last =>
+      if !s.st.connected then s.setLastChecked now
+      else
+        let s := if crossedReset rs last now then sendLogonInReplyTo s true else s
+        s.setLastChecked now
+
 def fuelOf (s : Sess) : Nat := 4 * s.inbox.length + 8
 
 inductive TimerEv | needHeartbeat | peerTimeout | logonTimeout | logoutTimeout
@@ -710,6 +804,7 @@ inductive Ev
   | send (m : OutMsg)                     -- SendToTarget (queueForSend)
   | flush                                 -- SendAppMessages
   | sessionTime (inRange same : Bool)     -- CheckSessionTime with a chosen clock
+  | resetTime (now : Int)                 -- CheckResetTime with a chosen clock (seconds since a midnight, UTC)
   deriving Inhabited
 
 def connect (s : Sess) : Sess × String :=
@@ -761,6 +856,7 @@ def stepCore (s : Sess) (e : Ev) : Sess × String :=
       let s := checkSessionTime fuel s true true
       ((if s.st.loggedOn then sendQueued s else s.setToSend []), "ok")
     | .sessionTime r sm => (checkSessionTime fuel s r sm, "ok")
+    | .resetTime now => (checkResetTime s now, "ok")
 
 /-- one event; returns the new state, the observations in order, and a status word for the op -/
 def step (s : Sess) (e : Ev) : Sess × List Obs × String :=
